@@ -250,3 +250,41 @@ Theorem C11_cells_tile_interval :
        qsum (map (fun se : Q * Q => pint (fst se) (snd se) f) (pairs (a :: l))) == pint a (last (a :: l) 0) f.
 Proof. exact pairs_telescope. Qed.
 Print Assumptions C11_cells_tile_interval.
+
+From NurbsV Require Import Proofs.SmallClosures.
+From NurbsV Require Proofs.UnionProofs Proofs.BezierProofs.
+(* ---- the same under the separation hypothesis alone (Proofs/SmallClosures.v): knots at least 1e-6 apart are exact knots ---- *)
+Theorem C11_gram_matrices_are_L2_products_separated :
+  forall (kold knew : kv) (g : grams),
+       WF (kvec kold) (kdeg kold) ->
+       WF (kvec knew) (kdeg knew) ->
+       UnionProofs.separated (kvec kold) ->
+       UnionProofs.separated (kvec knew) ->
+       kumin kold == kumin knew ->
+       kumax kold == kumax knew ->
+       grams_of kold knew = Ok g ->
+       let PF :=
+         fun (se : Q * Q) (j : nat) => NlocP (nthq (kvec kold)) (span_at (kvec kold) (fst se)) (kdeg kold) j
+         in
+       let PG :=
+         fun (se : Q * Q) (i : nat) => NlocP (nthq (kvec knew)) (span_at (kvec knew) (fst se)) (kdeg knew) i
+         in
+       (forall i j : nat,
+        (i < knpts knew)%nat ->
+        (j < knpts kold)%nat ->
+        entry (gGF g) i j ==
+        qsum (map (fun se : Q * Q => pint (fst se) (snd se) (pmul (PG se i) (PF se j))) (ls_cells kold knew))) /\
+       ((kdeg kold <= kdeg knew + 2)%nat ->
+        forall i j : nat,
+        (i < knpts kold)%nat ->
+        (j < knpts kold)%nat ->
+        entry (gFF g) i j ==
+        qsum (map (fun se : Q * Q => pint (fst se) (snd se) (pmul (PF se i) (PF se j))) (ls_cells kold knew))) /\
+       ((kdeg knew <= kdeg kold + 2)%nat ->
+        forall i j : nat,
+        (i < knpts knew)%nat ->
+        (j < knpts knew)%nat ->
+        entry (gGG g) i j ==
+        qsum (map (fun se : Q * Q => pint (fst se) (snd se) (pmul (PG se i) (PG se j))) (ls_cells kold knew))).
+Proof. exact grams_of_L2_separated. Qed.
+Print Assumptions C11_gram_matrices_are_L2_products_separated.
